@@ -41,7 +41,7 @@ REQUIRED_LABELS = ["reward_rule", "reference_moves_iff_improved", "learn_update"
 
 def bounds(tier):
     return {"quick": "n_actions 1..4, every action index, arbitrary symbolic Q/counts/alpha/eps/reward/losses",
-            "thorough": "n_actions 1..6; plus two successive learn steps on the same action (count continuity)"}[tier]
+            "thorough": "n_actions 1..8; plus 2..5 successive learn steps on the same action (count continuity)"}[tier]
 
 
 def _patches():
@@ -192,7 +192,7 @@ def case_init(n):
 
 
 def cases(tier, seed):
-    N = 4 if tier == "quick" else 6
+    N = 4 if tier == "quick" else 8
     cs = [case_reward()]
     for n in range(1, N + 1):
         cs.append(case_init(n))
@@ -200,9 +200,10 @@ def cases(tier, seed):
         for a in range(n):
             cs.append(case_learn(n, a))
     if tier == "thorough":
-        for n in (1, 3):
+        for n in (1, 3, 6):
             cs.append(case_learn(n, 0, steps=2))
             cs.append(case_learn(n, n - 1, steps=3))
+            cs.append(case_learn(n, n // 2, steps=5))
     else:
         cs.append(case_learn(2, 1, steps=2))
     return cs
